@@ -15,7 +15,7 @@ type VerifDelta = delta
 type VerifDigest = digest
 
 func (s *clusterState) VerifNodes() map[string]*nodeState { return s.nodes }
-func (s *clusterState) VerifLocalID() string               { return s.localID }
+func (s *clusterState) VerifLocalID() string              { return s.localID }
 
 const (
 	VerifLeftKey    = leftKey
